@@ -32,10 +32,14 @@ def boot(sim, rounds=100, need_leader=False):
             sim.check(light=True)
 
 
-def run_steps(sim, case, extra_ops=None):
+def run_steps(sim, case, extra_ops=None, extra_v2=None):
+    """Op tables are versioned by cfg['tbl'] so that saved replays keep their meaning when macro steps are added:
+    absent/1 = the table the regression replays were recorded with; 2 = extra_v2 (if given) plus the lagsnap macro step."""
     cfg = case['cfg']
     if extra_ops is None:
         extra_ops = [('churn', 2)]
+    if cfg.get('tbl', 1) >= 2:
+        extra_ops = list(extra_v2 if extra_v2 is not None else extra_ops) + [('lagsnap', 2)]
     table = gen.op_table(cfg.get('profile', 'mixed'), extra_ops)
     resolved = []
     if cfg.get('boot', True):
